@@ -257,7 +257,7 @@ def _work1(job: t.Tuple[t.Any, ...]) -> evid.Local:
         role = job[1]
         one = (L.ExtendedRequest(3, [], "1.2", b"v" * 29) if role == "server" else L.SearchResultEntry(1, [], "cn=e", [L.PartialAttribute("a", [b"v" * 21])])).pack(K.OPTS)
         data = one * 4000
-        for size in (1000, 333, 4096, 1460, 65536 + 7):
+        for size in (997, 331, 4099, 9973, 1460, 65536 + 7):  # mostly primes: reads (almost) never end on a PDU boundary
             chunks = [data[p : p + size] for p in range(0, len(data), size)]
             loc.add("transitions", len(chunks))
             vs, outcome = feed(role, "open-outstanding", chunks, False)
